@@ -128,7 +128,9 @@ func (s *SourceFileSet) file(p Pos) *SourceFile {
 
 		// f.base <= int(p) by definition of searchFiles
 		if int(p) <= f.Base+f.Size {
-			s.LastFile = f // race is ok - s.last is only a cache
+			// do not update the LastFile cache here: the file set of a
+			// Bytecode is shared by all VMs running it, which look up
+			// positions concurrently while formatting errors.
 			return f
 		}
 	}
